@@ -34,6 +34,7 @@ pub const AC_ASSUMPTIONS: &[&str] = &[
     "AC12: campaign() only on a voter of its own configuration",
     "AC13: Config passes validate(); pre_vote/check_quorum/read_only_option cluster-wide",
     "AC14: membership proposals name ids 1..=6, plus 0 and 99 at low weight in safety profiles",
+    "AC15: a Storage may answer an async-capable read with LogTemporarilyUnavailable; the recorded context is later handed to on_entries_fetched on the same incarnation",
     "SimStore (the simulated application's Storage implementation) and the simulator itself are trusted",
 ];
 
